@@ -282,6 +282,51 @@ class Program:
             elif isinstance(st, ast.AnnAssign) and isinstance(st.target, ast.Name) and st.value is not None:
                 ci.attrs[st.target.id] = st.value
                 ci.attr_nodes[st.target.id] = st
+        # name = functools.partialmethod(method_of_this_class, a, b): the method with its leading parameters bound
+        for st in node.body:
+            if isinstance(st, ast.Assign) and len(st.targets) == 1 and isinstance(st.targets[0], ast.Name) and isinstance(st.value, ast.Call) \
+                    and ast.unparse(st.value.func) in ('partialmethod', 'functools.partialmethod') and st.value.args \
+                    and isinstance(st.value.args[0], ast.Name) and st.value.args[0].id in ci.methods \
+                    and not any(isinstance(a, ast.Starred) for a in st.value.args) and all(k.arg for k in st.value.keywords):
+                base = ci.methods[st.value.args[0].id]
+                bn = base.node
+                if bn.args.vararg or bn.args.kwarg or bn.args.posonlyargs or base.kind != 'method':
+                    continue
+                bound = st.value.args[1:]
+                params = bn.args.args[1:]
+                if len(bound) > len(params):
+                    continue
+                import copy as _copy
+                new = _copy.deepcopy(bn)
+                new.name = st.targets[0].id
+                pre = []
+                names = [p_.arg for p_ in params[:len(bound)]]
+                for p_, a in zip(names, bound):
+                    pre.append(ast.Assign(targets=[ast.Name(id=p_, ctx=ast.Store())], value=_copy.deepcopy(a)))
+                kw = {k.arg: k.value for k in st.value.keywords}
+                keep = []
+                for p_ in new.args.args[1 + len(bound):]:
+                    if p_.arg in kw:
+                        pre.append(ast.Assign(targets=[ast.Name(id=p_.arg, ctx=ast.Store())], value=_copy.deepcopy(kw[p_.arg])))
+                    else:
+                        keep.append(p_)
+                n_drop = len(new.args.args) - 1 - len(keep)
+                new.args.args = [new.args.args[0]] + keep
+                if new.args.defaults:
+                    new.args.defaults = new.args.defaults[-len(keep):] if len(keep) and len(new.args.defaults) > len(keep) else \
+                        (new.args.defaults if len(new.args.defaults) <= len(keep) else [])
+                doc = [new.body[0]] if new.body and isinstance(new.body[0], ast.Expr) and isinstance(getattr(new.body[0], 'value', None), ast.Constant) \
+                    and isinstance(new.body[0].value.value, str) else []
+                new.body = doc + pre + new.body[len(doc):]
+                for n_ in ast.walk(new):
+                    if hasattr(n_, 'lineno'):
+                        n_.lineno = st.lineno
+                        n_.end_lineno = st.lineno
+                ast.fix_missing_locations(new)
+                fi = FuncInfo(m, new, ci)
+                ci.methods[new.name] = fi
+                self.functions[fi.qualname] = fi
+                ci.attrs.pop(new.name, None)
         return ci
 
     # ------------------------------------------------------------------ renamed anchors
